@@ -72,3 +72,52 @@ brk("c02-flatten-only-payloads", ["C02"], (C, "            if k is suit_integrat
 brk("c02-try-each-unwrapped", ["C02"], (M, "    _metadata = Metadata(children=[cbstr(SuitCommandSequence)])", "    _metadata = Metadata(children=[SuitCommandSequence])"))
 ben("c02-rename-class", ["C02", "C08"], (M, "SuitRepPolicy", "SuitReportingPolicy", "all"))
 ben("c02-reorder-map-entries", ["C02", "C08"], (M, "            suit_directive_fetch: SuitRepPolicy,\n            suit_directive_copy: SuitRepPolicy,", "            suit_directive_copy: SuitRepPolicy,\n            suit_directive_fetch: SuitRepPolicy,"))
+
+# ------------------------------------------------------------------ C12 MPI
+brk("c12-dp-swapped", ["C12"], (MPI, '        if downgrade_prevention_enabled:\n            downgrade_prevention_enabled_bytes = b"\\02"\n        else:\n            downgrade_prevention_enabled_bytes = b"\\01"', '        if downgrade_prevention_enabled:\n            downgrade_prevention_enabled_bytes = b"\\01"\n        else:\n            downgrade_prevention_enabled_bytes = b"\\02"'))
+brk("c12-sv-boot-2", ["C12"], (MPI, 'signature_verification_bytes = b"\\03"', 'signature_verification_bytes = b"\\02"'))
+brk("c12-reserved-11", ["C12"], (MPI, '+ b"\\xff" * 12  # Reserved', '+ b"\\xff" * 11  # Reserved'))
+brk("c12-pad-zero", ["C12"], (MPI, 'mpi_hex.frombytes(mpi.ljust(size, b"\\xff"), address)', 'mpi_hex.frombytes(mpi.ljust(size, b"\\x00"), address)'))
+brk("c12-cid-flat", ["C12", "C13"], (MPI, "        cid = uuid.uuid5(vid, class_name)\n\n        if downgrade", "        cid = uuid.uuid5(uuid.NAMESPACE_DNS, class_name)\n\n        if downgrade"))
+brk("c12-vid-cid-swapped", ["C12"], (MPI, "            + vid.bytes\n            + cid.bytes", "            + cid.bytes\n            + vid.bytes"))
+brk("c12-bounds-off-by-one", ["C12"], (MPI, "(slot_hex.maxaddr() > address + size - 1)", "(slot_hex.maxaddr() > address + size)"))
+brk("c12-bounds-no-min", ["C12"], (MPI, "if (slot_hex.minaddr() < address) or (slot_hex.maxaddr() > address + size - 1):", "if slot_hex.maxaddr() > address + size - 1:"))
+brk("c12-overlap-replace", ["C12"], (MPI, "merged_hex.merge(slot_hex)", "merged_hex.merge(slot_hex, overlap=\"replace\")"))
+brk("c12-tobinstr-exclusive", ["C12"], (MPI, "merged_hex.tobinstr(start=address, end=address + size - 1)", "merged_hex.tobinstr(start=address, end=address + size)"))
+brk("c12-padding-after", ["C12"], (MPI, "        merged_hex.padding = 0xFF\n        merged_bin = merged_hex.tobinstr(start=address, end=address + size - 1)", "        merged_bin = merged_hex.tobinstr(start=address, end=address + size - 1)\n        merged_hex.padding = 0xFF"))
+brk("c12-sha-of-prefix", ["C12"], (MPI, "hash_func.update(merged_bin)", "hash_func.update(merged_bin[:-1])"))
+brk("c12-sha512", ["C12"], (MPI, "hash_func = hashes.Hash(hashes.SHA256(), backend=default_backend())", "hash_func = hashes.Hash(hashes.SHA512(), backend=default_backend())"))
+brk("c12-main-swap", ["C12"], (MPI, '            kwargs["address"],\n            kwargs["size"],\n            kwargs["downgrade_prevention_enabled"],', '            kwargs["size"],\n            kwargs["address"],\n            kwargs["downgrade_prevention_enabled"],'))
+brk("c12-choices", ["C12"], (MPI, 'choices=["update", "update-and-boot"],', 'choices=["update", "update-and-boot", "boot"],'))
+ben("c12-bounds-equiv", ["C12"], (MPI, "(slot_hex.maxaddr() > address + size - 1)", "(slot_hex.maxaddr() >= address + size)"))
+ben("c12-dict-policy", ["C12"], (MPI, '        if independent_updates:\n            independent_updates_bytes = b"\\02"\n        else:\n            independent_updates_bytes = b"\\01"', '        independent_updates_bytes = b"\\02" if independent_updates else b"\\01"'))
+ben("c12-rename-local", ["C12"], (MPI, "merged_bin", "area_bytes", "all"))
+
+# ------------------------------------------------------------------ C13 UUID derivations
+brk("c13-desc-namespace-not-nested", ["C13"], (M, 'namespace = uuid.uuid5(uuid.NAMESPACE_DNS, uuid_obj["namespace"])', 'namespace = uuid.uuid5(uuid.NAMESPACE_URL, uuid_obj["namespace"])'))
+brk("c13-desc-name-ns-swapped", ["C13"], (M, 'entry = uuid.uuid5(namespace, uuid_obj["name"]).bytes', 'entry = uuid.uuid5(namespace, uuid_obj["namespace"] if "namespace" in uuid_obj else uuid_obj["name"]).bytes'))
+brk("c13-role-vid-flat", ["C13"], (IMG, "        cid = uuid.uuid5(vid, class_name)\n        self._assignments[cid.hex]", "        cid = uuid.uuid5(uuid.NAMESPACE_DNS, vendor_name + class_name)\n        self._assignments[cid.hex]"))
+brk("c13-role-key-vid", ["C13"], (IMG, "self._assignments[cid.hex] = {", "self._assignments[vid.hex] = {"))
+brk("c13-kconfig-class-from-root", ["C13"], (IMG, '                    "class_name": config[f"SB_CONFIG_SUIT_MPI_{manifest}_CLASS_NAME"],\n                    "role"', '                    "class_name": config["SB_CONFIG_SUIT_MPI_ROOT_CLASS_NAME"],\n                    "role"'))
+brk("c13-kconfig-root-unmapped", ["C13"], (IMG, 'ManifestRole[f"APP_{manifest}" if manifest == "ROOT" else manifest]', 'ManifestRole[f"APP_{manifest}" if manifest == "ROOT_" else manifest]'))
+brk("c13-kconfig-regex-no-digit", ["C13"], (IMG, "(?P<manifest>[A-Z1-9_]+)_VENDOR_NAME$", "(?P<manifest>[A-Z_]+)_VENDOR_NAME$"))
+brk("c13-dup-check-or", ["C13"], (IMG, '                        item["vendor_name"] == config[f"SB_CONFIG_SUIT_MPI_{manifest}_VENDOR_NAME"]\n                        and item["class_name"]', '                        item["vendor_name"] == config[f"SB_CONFIG_SUIT_MPI_{manifest}_VENDOR_NAME"]\n                        and item["role"]'))
+brk("c13-assign-swapped", ["C13"], (IMG, '            for entry in self._get_role_assignments_from_kconfig(kconfig):\n                self.assign_role(entry["vendor_name"], entry["class_name"], entry["role"])', '            for entry in self._get_role_assignments_from_kconfig(kconfig):\n                self.assign_role(entry["class_name"], entry["vendor_name"], entry["role"])'))
+ben("c13-rename-locals", ["C13", "C12"], (MPI, "        vid = uuid.uuid5(uuid.NAMESPACE_DNS, vendor_name)\n        cid = uuid.uuid5(vid, class_name)", "        vendor_uuid = uuid.uuid5(uuid.NAMESPACE_DNS, vendor_name)\n        vid = vendor_uuid\n        cid = uuid.uuid5(vendor_uuid, class_name)"))
+
+# ------------------------------------------------------------------ C16 update candidate info
+brk("c16-big-endian", ["C16"], (IMG, 'return "<" + "IIII" + dfu_max_caches * "II"', 'return ">" + "IIII" + dfu_max_caches * "II"'))
+brk("c16-native-order", ["C16"], (IMG, 'return "<" + "IIII" + dfu_max_caches * "II"', 'return "IIII" + dfu_max_caches * "II"'))
+brk("c16-magic", ["C16"], (IMG, "UPDATE_MAGIC_VALUE_AVAILABLE = 0x55AA55AA", "UPDATE_MAGIC_VALUE_AVAILABLE = 0xAA55AA55"))
+brk("c16-addr-size-swapped", ["C16"], (IMG, "            dfu_partition_address,  # SUIT envelope address\n            candidate_size,  # SUIT envelope size", "            candidate_size,  # SUIT envelope size\n            dfu_partition_address,  # SUIT envelope address"))
+brk("c16-cache-count-plus-one", ["C16"], (IMG, "all_cache_values = dfu_max_caches * [0, 0]", "all_cache_values = (dfu_max_caches + 1) * [0, 0]"))
+brk("c16-size-of-other-file", ["C16"], (IMG, "                os.path.getsize(input_file),\n", "                os.path.getsize(dfu_partition_output_file),\n"))
+brk("c16-uci-at-partition", ["C16"], (IMG, "                dfu_partition_address, update_candidate_size, dfu_max_caches\n            ),\n            update_candidate_info_address,", "                dfu_partition_address, update_candidate_size, dfu_max_caches\n            ),\n            dfu_partition_address,"))
+brk("c16-bin2hex-offset", ["C16"], (IMG, "if err := bin2hex(input_file, dfu_partition_output_file, dfu_partition_address):", "if err := bin2hex(input_file, dfu_partition_output_file, dfu_partition_address & 0xFFFF0000):"))
+brk("c16-bin2hex-unchecked", ["C16"], (IMG, "        if err := bin2hex(input_file, dfu_partition_output_file, dfu_partition_address):\n            raise GeneratorError(f\"Failed to convert {input_file} to {dfu_partition_output_file}: {err}\")", "        bin2hex(input_file, dfu_partition_output_file, dfu_partition_address)"))
+brk("c16-main-swap", ["C16"], (IMG, '            kwargs["update_candidate_info_address"],\n            kwargs["dfu_partition_address"],\n            kwargs["dfu_max_caches"],', '            kwargs["dfu_partition_address"],\n            kwargs["update_candidate_info_address"],\n            kwargs["dfu_max_caches"],'))
+brk("c16-build-glue-swap", ["C16"], (BUILD, "            update_candidate_info_address=arguments.update_candidate_info_address,\n            dfu_partition_address=arguments.dfu_partition_address,", "            update_candidate_info_address=arguments.dfu_partition_address,\n            dfu_partition_address=arguments.update_candidate_info_address,"))
+brk("c16-regions-2", ["C16"], (IMG, "            1,  # Nb of memory regions", "            2,  # Nb of memory regions"))
+ben("c16-struct-pack", ["C16"], (IMG, "        uci = struct.Struct(ImageCreator._prepare_suit_storage_struct_format(dfu_max_caches))\n", "        uci_format = ImageCreator._prepare_suit_storage_struct_format(dfu_max_caches)\n"),
+    (IMG, "        return uci.pack(*struct_values)", "        return struct.pack(uci_format, *struct_values)"))
+ben("c16-size-local", ["C16"], (IMG, "            ImageCreator._create_suit_storage_file_for_update(\n                dfu_partition_address,\n                os.path.getsize(input_file),", "            envelope_size = os.path.getsize(input_file)\n            ImageCreator._create_suit_storage_file_for_update(\n                dfu_partition_address,\n                envelope_size,"))
